@@ -101,7 +101,8 @@ def worker(batch):
             qs, names = [], []
             for name, p in ir["params"].items():
                 et = enc_typ(p.get("typ") or "")
-                if et is not None:
+                # the table does not model doc-derived type inference: only trigger-free descriptions are compared
+                if et is not None and p.get("doc") in T.PLAIN_DOCS:
                     qs.append([[MODEL_FMT[tag]] * len(outs), [et, enc_def(p)]])
                     names.append(name)
             if qs:
